@@ -73,11 +73,11 @@ func CheckOCIState(ctx context.Context, s OCIView, m *model.OCI, prop, when stri
 		if err != nil {
 			return vt.Failf(prop+"/exists-error", "%s: Exists(node %d): %v", when, id, err)
 		}
-		if ok != m.Stored[id] {
-			return vt.Failf(prop+"/exists-mismatch", "%s: Exists(node %d %s) = %v, model says %v", when, id, n.Spec.Kind, ok, m.Stored[id])
+		if ok != m.Has(id) {
+			return vt.Failf(prop+"/exists-mismatch", "%s: Exists(node %d %s) = %v, model says %v", when, id, n.Spec.Kind, ok, m.Has(id))
 		}
 		b, err := gen.ReadBack(ctx, s, n.Desc)
-		if m.Stored[id] {
+		if m.Has(id) {
 			if err != nil {
 				return vt.Failf(prop+"/fetch-error", "%s: Fetch(node %d): %v", when, id, err)
 			}
@@ -102,11 +102,11 @@ func CheckOCIState(ctx context.Context, s OCIView, m *model.OCI, prop, when stri
 			return vt.Failf(prop+"/resolve-error", "%s: Resolve(%q): %v", when, ref, err)
 		}
 		n := d.Nodes[m.Tags[ref]]
-		if desc.Digest != n.Desc.Digest || desc.Size != n.Desc.Size || desc.MediaType != n.Desc.MediaType {
+		if desc.Digest != n.Desc.Digest || desc.Size != n.Desc.Size {
 			return vt.Failf(prop+"/resolve-mismatch", "%s: Resolve(%q) = %s/%s/%d, model says node %d %s/%s/%d", when, ref, desc.MediaType, desc.Digest, desc.Size, n.ID, n.Desc.MediaType, n.Desc.Digest, n.Desc.Size)
 		}
 	}
-	return CheckPreds(ctx, s, d, m.Stored, prop, when)
+	return CheckPreds(ctx, s, d, m.StoredTriples(), prop, when)
 }
 
 // IsNotFound reports the not-found error class.
